@@ -13,7 +13,7 @@ package keeper
 // every stored id was made with a counter value below the current one
 //@ define idsBelowCounter = forall i:Bytes :: has(records, i) ==> 0 <= ctrOf(i) && ctrOf(i) < CTR
 
-//@ func Keeper.AddRecord
+//@ func Keeper.AddRecord(ctx, record)
 //@   property C19
 //@   returns id
 //@   requires idsBelowCounter
@@ -27,14 +27,14 @@ package keeper
 //@   ensures keeps:   idsBelowCounter
 //@ end
 
-//@ func Keeper.GetRecord
+//@ func Keeper.GetRecord(ctx, recordID)
 //@   property C19
 //@   returns record, found
 //@   ensures found: found == has(records, recordID)
 //@   ensures value: found ==> record == get(records, recordID)
 //@ end
 
-//@ func msgServer.CreateRecord
+//@ func msgServer.CreateRecord(goCtx, msg)
 //@   property C19
 //@   returns resp, err
 //@   requires idsBelowCounter
